@@ -71,6 +71,9 @@ CHECKS = {
     "C20": dict(level="model_checking", ref="7/C20", technique="TLA+ spec of the directory reader (DirReader.tla: real offset/lastSz algorithm next to the ideal) checked by TLC; every scenario replayed on the real LogDirReader (in-memory fs through the verif constructor, real files for the initial order) and judged by TLC (DirReaderTrace.tla)",
                 text="TLC: for every sequence of append / partial append / complete / rotate / truncate / create up to the bound over eight initial directory contents (incl. 12 rotations and suffixes up to 999) the modelled tailing algorithm delivers exactly the ideal sequence; the two pinned variants are rejected. All scenarios are replayed on the real reader with lines shorter and longer than the read buffer; delivered lines are compared by TLC with the ideal.",
                 note="Trusted: TLC; the in-memory file system and event scripting of harness/cmd/dirreaderh; 'each event processed before the next change' is enforced by a barrier event."),
+    "C15": dict(level="model_checking", ref="7/C15", technique="TLA+ model of parser + reassembler (as used) + call-back (ReasmCore/ReasmGen.tla) checked by TLC over all event shapes x record interleavings x faults; every scenario realised through the real Auditd.Read and judged by TLC (ReasmTrace.tla)",
+                text="TLC enumerates kernel events of four shapes, every interleaving of their records that preserves per-event order, and one fault (malformed line at any position, failing write at the k-th event, invalid login or LOGIN record with unparsable pid at any point) and checks grouping / at-most-once / nothing-silently-skipped on the model. Each scenario is fed line by line (with barriers) to the real Auditd.Read; the events at the encoder (grouping by EXECVE arguments), Read's return value and whether the error names the offending line are validated by TLC.",
+                note="Trusted: TLC; harness/cmd/reasm's barrier technique (empty line after each record) and error classification by message; go-libaudit's time-out/overflow paths are not modelled."),
 }
 
 ALL = ["C%02d" % i for i in range(1, 21)]
